@@ -3407,6 +3407,9 @@ Box<ITV>
       // So we set the bounds to be unbounded.
       seq_v.assign(UNIVERSE);
     }
+    // The interval of `var' has been rebuilt from scratch (and the
+    // minimum of `lb_expr' may exceed the maximum of `ub_expr').
+    reset_empty_up_to_date();
   }
   PPL_ASSERT(OK());
 }
